@@ -326,4 +326,41 @@ Section C02.
         apply trivial_merge_spec in E; [|assumption]. now apply H in E.
       + intros H v R. apply trivial_merge_spec in R; [|assumption]. congruence.
   Qed.
+  (** * laws following from the cancellation rule *)
+
+  (** Simplifying first cannot change the outcome: the automatic resolution of a conflict and
+      of its simplified form coincide (resolve_trivial after simplify, as the tree merge does). *)
+  Lemma simplify_odd m : Nat.odd (length m) = true -> Nat.odd (length (simplify eqb m)) = true.
+  Proof.
+    intros H. destruct (simplify_arity eqb eqb_spec m) as [E _].
+    rewrite <- Nat.negb_even in *. rewrite E. exact H.
+  Qed.
+
+  Theorem trivial_merge_simplify accept m :
+    Nat.odd (length m) = true ->
+    trivial_merge eqb accept (simplify eqb m) = trivial_merge eqb accept m.
+  Proof.
+    intros H. apply trivial_merge_den_only; [now apply simplify_odd|exact H|].
+    intros v. apply (simplify_den eqb eqb_spec).
+  Qed.
+
+  (** Accepting same-change conflicts only resolves more: whatever resolves under Reject
+      resolves to the same value under Accept. *)
+  Theorem trivial_merge_accept_mono l v :
+    Nat.odd (length l) = true ->
+    trivial_merge eqb false l = Some v -> trivial_merge eqb true l = Some v.
+  Proof.
+    intros H E. apply trivial_merge_spec in E; [|exact H]. apply trivial_merge_spec; [exact H|].
+    destruct E as [A [B|[C _]]]; [|discriminate C]. split; [exact A|left; exact B].
+  Qed.
+
+  (** The value a conflict resolves to is one of its terms (it has a positive net count). *)
+  Theorem trivial_merge_in l accept v :
+    Nat.odd (length l) = true -> trivial_merge eqb accept l = Some v -> In v l.
+  Proof.
+    intros H E. apply trivial_merge_spec in E; [|exact H]. destruct E as [A _].
+    destruct (in_dec eq_dec v l) as [Hin|Hn]; [exact Hin|].
+    rewrite (den_notin l v Hn) in A. lia.
+  Qed.
+
 End C02.
